@@ -108,3 +108,16 @@ func init() {
 		pkgVars:      map[string]string{"sigSplit": "(ModVerif.Generated.note_sigSplit)", "sigPrefix": "(ModVerif.Generated.note_sigPrefix)"},
 	})
 }
+
+func init() {
+	g2lUnits = append(g2lUnits, &g2lUnit{
+		out: "FnZip", ns: "Zip", pkgDir: "zip",
+		imports:     []string{"ModVerif.Basic.GoRtUtf8", "ModVerif.Basic.GoRtPath"},
+		structNames: []string{"pathInfo"},
+		fns:         []string{"isVendoredPackage", "strToFold", "collisionChecker.check"},
+		inout:       map[string]string{"collisionChecker.check": "cc"},
+		absFuncs:    map[string]string{"version.Compare": "versionCompare", "unicode.SimpleFold": "simpleFold"},
+		absSigs:     map[string]string{"versionCompare": "Bytes → Bytes → Int", "simpleFold": "Int → Int"},
+		stdCalls:    map[string]stdFn{"path.Dir": {"pathDir", false}},
+	})
+}
